@@ -1,16 +1,17 @@
 #!/bin/bash
 # bin/runall.sh [quick|thorough] [ids...] — runs the registered checks one after the other and prints a summary table.
+V=$(cd "$(dirname "${BASH_SOURCE[0]}")/.." && pwd)
 TIER=${1:-quick}; shift
 IDS=${@:-C01 C02 C03 C04 C05 C06 C07 C08 C09 C10 C11 C12 C13 C14 C15 C16 C17 C18 C19 C20}
-mkdir -p /verif/.work/logs
+mkdir -p $V/.work/logs
 rc_all=0
 for id in $IDS; do
   t0=$(date +%s)
-  mkdir -p /verif/.work/logs
-  bash /verif/bin/check $id --tier $TIER > /verif/.work/logs/$id.$TIER.log 2>&1
+  mkdir -p $V/.work/logs
+  bash $V/bin/check $id --tier $TIER > $V/.work/logs/$id.$TIER.log 2>&1
   rc=$?
   t1=$(date +%s)
-  echo "$id rc=$rc $((t1-t0))s $(tail -1 /verif/.work/logs/$id.$TIER.log | cut -c1-160)"
+  echo "$id rc=$rc $((t1-t0))s $(tail -1 $V/.work/logs/$id.$TIER.log | cut -c1-160)"
   [ $rc -ne 0 ] && rc_all=1
 done
 exit $rc_all
